@@ -15,6 +15,17 @@ for id in $IDS; do
   sig=$(grep -m1 'sig=' .build/kill-$id.out | sed 's/.*sig=//' | cut -c1-110)
   nv=$(grep -c '^VIOLATION' .build/kill-$id.out)
   verdict="MISSED"; [ $rc -eq 1 ] && verdict="caught"; [ $rc -ge 2 ] && verdict="check error (rc=$rc)"
+  if [ "$verdict" = "MISSED" ]; then
+    # a change filed under one property that in fact breaks another one: meta.json may name the checks to consult
+    for other in $(jq -r '.also_check[]?' seeded/$id/meta.json); do
+      git -C /repo apply $PWD/seeded/$id/patch.diff
+      VERIF_EVIDENCE_DIR=/verif/.build/scratch-evidence ./run $other quick > .build/kill-$id-$other.out 2>&1; rc2=$?
+      git -C /repo checkout -q -- . ; git -C /repo clean -fdq
+      if [ $rc2 -eq 1 ]; then
+        verdict="caught by $other (own property holds, see meta.json note)"; sig=$(grep -m1 'sig=' .build/kill-$id-$other.out | sed 's/.*sig=//' | cut -c1-110); nv=$(grep -c '^VIOLATION' .build/kill-$id-$other.out); break
+      fi
+    done
+  fi
   echo "| $id | $prop | $verdict ($nv violation lines) | \`$sig\` |" >> $TMP
   python3 - $id $prop "$verdict" "$sig" <<'PY'
 import json,sys
